@@ -673,6 +673,22 @@ class C11(Machine):
         ctx.stats.probe('decoy_files_written', n)
 
 
+    def summarise(self, feats):
+        """Reach measure: (max_workers, back end, mode) cells and distinct
+        completion orders of pools with <= 4 tasks (33 exist: 1+2+6+24)."""
+        cells, orders = set(), set()
+        for f in feats:
+            mw, be, mode, order = f.split('/')
+            cells.add((int(mw), be, mode))
+            if len(order) <= 4:
+                orders.add(order)
+        mws = sorted({c[0] for c in cells})
+        return {'cells_mw_backend_mode_hit': len(cells),
+                'cells_possible': 16 * 2 * 2,
+                'max_workers_values_hit': mws,
+                'distinct_completion_orders_le4_tasks': len(orders),
+                'completion_orders_le4_possible': 32}
+
     # -- stub validation on the real pool (thorough tier) -------------------
     def post_batch(self, tier, seed, log):
         """Re-run a sample of fault-free workloads on the *real*
